@@ -7,7 +7,12 @@ MANIFEST = {
     "text": "Unit level: Memory.tla's evaluation step (sequential and rayon-parallel evaluator) keeps order and solutions, "
             "evaluates everyone with F, advances counter and objective-call count by exactly |population| (EvaluateExact, "
             "CountOnlyByEvaluate), and a configuration asking for an unregistered evaluator identifier fails in `require` "
-            "with nothing executed; model-checked exhaustively, then replayed (transition tour, random histories incl. empty "
+            "with nothing executed; 'the REGISTERED evaluator' is modelled (RegisteredApplied): evaluators distinguishable by their "
+            "number of objective calls are registered through insert_evaluator / insert_evaluator_as::<Global> / "
+            "insert_evaluator_as::<A>, twice under one identifier (the one registered last counts), under two identifiers, "
+            "by the state_init of a Scope::new_with of its own (shadowing the enclosing registration, or being the only one: "
+            "the step must run), under the other identifier only, or nowhere (the scope fails before anything in it executes); "
+            "model-checked exhaustively, then replayed (transition tour, random histories incl. empty "
             "populations) on the real PopulationEvaluator with a call-counting objective function. Template level: in every "
             "step of every run of the 21 templates the increase of the visible Evaluations counter must equal the number of "
             "objective invocations actually made (Run.tla clause C06: every step; evaluation steps: same solutions, same "
@@ -24,7 +29,8 @@ RULE = ("cases = (i) evaluation-related operations on real populations (transiti
 
 def run(ctx):
     q = ctx.quick
-    memlib.unit(ctx, ["evaluate", "evaluate_missing", "evaluate_nested", "evaluate_with", "set_objective"])
+    memlib.unit(ctx, ["evaluate", "evaluate_missing", "evaluate_nested", "evaluate_with", "set_objective",
+                      "register", "evaluate_id", "evaluate_scoped"], registrations=True)
     runlib.run_templates(ctx, ["C06"], seeds=[ctx.seed, ctx.seed + 1] if q else list(range(ctx.seed, ctx.seed + 12)),
                          iters=[0, 4] if q else [0, 1, 8, 30], evals=("seq", "par"))
     return ctx.finish(RULE)
